@@ -26,7 +26,10 @@
                                                               Tensor/AdjMax.v; derivative when the extremum
                                                               is attained once
      LogSumExp, SoftmaxCrossEntropy, SparseSoftmaxCrossEntropy   Tensor/AdjSoftmax.v (compositions of forward
-                                                              kernels in the BACKWARD bodies) *)
+                                                              kernels in the BACKWARD bodies); dense SCE for
+                                                              x and t of one common shape; its tangent is the
+                                                              derivative only when sum_axis t = 1 (D11)
+   Not in real_family yet: MaxPooling2D, DivideScalarR/L, PowScalarR/L. *)
 From Coq Require Import List NArith ZArith Bool Arith Lia Ring Reals RealField Lra.
 From PV Require Import Graph.OpFamily Graph.Tape Graph.Lazy Graph.Backward Graph.TapeLemmas Graph.LazyProofs
   Graph.BackwardProofs Graph.ADProof Tensor.Kernels Tensor.Index Tensor.ProofsBilinear
